@@ -61,7 +61,7 @@ def bounds(tier):
     cfgs = all_configs(tier)
     return {"configurations": len(cfgs), "of_which_extreme_parameter_configs": len(extra_configs(tier)),
             "shapes(N,H,k)": sorted({(c["N"], c["H"], c["k"]) for c in cfgs}, key=str),
-            "closed_form": "u = 1+2^-k for k=1..52 x rate_error_2 in {1e-4,1e-3,1e-2,0.1} x N in {inf, 10}"}
+            "closed_form": "u = 1+2^-k for k=1..52 x rate_error_2 in {1e-4,1e-3,1e-2,0.1} x N in {inf, 10} x samples {mixed, all at u, all zero, alternating}"}
 
 
 def judge(cfg, idx, obs, flags=None):
@@ -147,18 +147,23 @@ def closed_judge(case):
         warnings.simplefilter("ignore")
         nm = NonnegMean(test=NonnegMean.alpha_mart, estim=NonnegMean.optimal_comparison, u=u,
                         N=case["N"] if case["N"] else np.inf, t=1 / 2, rate_error_2=case["rate"])
-        x = np.array([u / 2, u / 2, 0.0, u / 2])
-        with np.errstate(all="ignore"):
-            e = np.asarray(nm.estim(x), dtype=float)
-        vals = [float(v) for v in (e.ravel() if e.ndim else [e])]
-        bad = [v for v in vals if not (v == v) or v < 0 or v > u * (1 + 1e-12)]
-        if bad:
-            out.append((f"C13|alpha_mart+optimal_comparison|eta-outside-[0,u]",
-                        f"optimal_comparison: eta = {bad[0]} outside [0,u] for u = 1+2^-{case['k']}, rate_error_2 = {case['rate']}"))
-        p, h = nm.test(x)
-        if any(v == v and v < 0 for v in np.asarray(h, dtype=float)):
-            out.append((f"C13|alpha_mart+optimal_comparison|negative-history-entry",
-                        f"optimal_comparison: negative history entry for u = 1+2^-{case['k']}, rate_error_2 = {case['rate']}"))
+        # an ordinary sample, and the extreme ones: all at the bound (the total passes N t, the null mean of the rest goes
+        # negative), all zero (the null mean passes u), alternating
+        for name, xl in (("mixed", [u / 2, u / 2, 0.0, u / 2]), ("all-u", [u] * 9), ("all-0", [0.0] * 9), ("alternating", [u, 0.0] * 4)):
+            x = np.array(xl)
+            with np.errstate(all="ignore"):
+                e = np.asarray(nm.estim(x), dtype=float)
+            vals = [float(v) for v in (e.ravel() if e.ndim else [e])]
+            bad = [v for v in vals if not (v == v) or v < 0 or v > u * (1 + 1e-12)]
+            if bad:
+                out.append((f"C13|alpha_mart+optimal_comparison|eta-outside-[0,u]",
+                            f"optimal_comparison: eta = {bad[0]} outside [0,u] for u = 1+2^-{case['k']}, rate_error_2 = {case['rate']}, N = {case['N']}, sample {name}"))
+            p, h = nm.test(x)
+            if any(v == v and v < 0 for v in np.asarray(h, dtype=float)):
+                out.append((f"C13|alpha_mart+optimal_comparison|negative-history-entry",
+                            f"optimal_comparison: negative history entry for u = 1+2^-{case['k']}, rate_error_2 = {case['rate']}, N = {case['N']}, sample {name}"))
+            if out:
+                break
     return out
 
 
